@@ -1,2 +1,5 @@
 import Ufw.Props.C07
-#print axioms Ufw.Props.C07.seq_step
+#print axioms Ufw.Props.C07.verdict_eq_spec
+#print axioms Ufw.Props.C07.accepted_payload_checksum
+#print axioms Ufw.Props.C07.rejected_not_executed
+#print axioms Ufw.Props.C07.damaged_frame_reception
